@@ -108,6 +108,10 @@ class GenB(GenA):
         rng = self.rng
         w = self.p['step_w']
         ops = list(w)
+        if prefer is None and rng.random() < self.p.get('p_top_up', 0.06):
+            c = self.top_up()
+            if c is not None:
+                return c
         for _ in range(30):
             op = prefer or rng.choices(ops, weights=[w[o] for o in ops])[0]
             prefer = None
@@ -129,6 +133,27 @@ class GenB(GenA):
                 c['tgt'] = [c['tgt'][0]]        # known finding: slices are only filled by its witness
             return c
         return None
+
+    def top_up(self):
+        """Fill a declared container back up to exactly the volume it had when it was declared (after something was taken
+        out of it): the target coincides with a number the recipe has seen before."""
+        rng, W, rep = self.rng, self.W, self.run.rep
+        cand = []
+        for n, h in self.run.handles.items():
+            o = self.run.eager.get(n)
+            if isinstance(h, rep.Container) and isinstance(o, rep.Container) and h.volume > 0 and o.volume < h.volume:
+                cand.append(n)
+        if not cand:
+            return None
+        n = rng.choice(sorted(cand))
+        h = self.run.handles[n]
+        m = W.alpha_container(self.run.eager[n])
+        liquids = [s for s in m.contents if W.msubs[s].kind == M.LIQUID] or self.subs_of(M.LIQUID)
+        if not liquids:
+            return None
+        q = fmt_quantity(rng, W.stored_volume(h), 'L', digits=17)
+        self.run.stats['probe:top_up_to_declared_volume'] += 1
+        return {'c': 'fill_to', 'tgt': [n], 'solvent': rng.choice(sorted(liquids)), 'q': q}
 
     def maybe_subslice(self, c):
         """Sometimes address a region as a slice of a slice (plate[1:4][0:2, 0:1]); only where the library pairs wells by
